@@ -837,6 +837,9 @@ def rerun(ck: Check, rn: Runner, inp: dict) -> None:
     kind = inp.get("kind")
     if kind in ("repeated", "repeated_rewritten"):
         c18_repeat.rerun(ck, camp, rn, inp)
+    elif kind == "path_routes":
+        from . import c18_paths
+        c18_paths.rerun(ck, camp, inp)
     elif kind == "kv":
         c18_kv.rerun(ck, camp, rn, inp)
     elif kind == "three_ways" and inp.get("env_toml"):
@@ -864,7 +867,7 @@ def known_findings(ck: Check, rn: Runner) -> None:
 
 
 def run(ck: Check) -> None:
-    from . import c18_env, c18_kv, c18_repeat
+    from . import c18_env, c18_kv, c18_paths, c18_repeat
     from . import c18_pool
     from .c18_pool import run_parts
 
@@ -886,6 +889,7 @@ def run(ck: Check) -> None:
     campaign_merge(ck, 800 if quick else 8000)
     campaign_pyproject(ck, 120 if quick else 1200)
     c18_kv.campaign_kv_model(ck, 600 if quick else 6000)
+    c18_paths.model_campaigns(ck)   # path-valued options: PathNorm correspondence + its search hook (vlib/props/c18_paths.py)
     _t0 = time.time()
 
     def _t(label: str) -> None:
@@ -910,7 +914,7 @@ def run(ck: Check) -> None:
 
         run_parts(ck, [("part:three-ways", first), ("part:alias", lambda p: campaign_alias_spellings(p, rn)),
                        ("part:split", lambda p: campaign_split(p, rn)), ("part:env", c18_env.campaign_env),
-                       ("part:exit", lambda p: campaign_exit(p, rn))])
+                       ("part:exit", lambda p: campaign_exit(p, rn)), ("part:paths", c18_paths.campaign_paths)])
         _t("group1")
         run_parts(ck, [("part:repeated", repeated), ("part:both", lambda p: campaign_both_present(p, rn, box.get("cache", {}))),
                        ("part:known", lambda p: known_findings(p, rn))])   # the witnesses of the known findings, re-run
